@@ -43,9 +43,13 @@ func genC16(t *rapid.T) C16Case {
 		Version: rapid.SampledFrom([]string{"1.0.0", "", "v2-β", "0"}).Draw(t, "version")}
 	n := rapid.IntRange(1, 8).Draw(t, "nsteps")
 	for i := 0; i < n; i++ {
-		op := rapid.SampledFrom([]string{"init", "init", "init", "init", "regtool", "regprompt", "regresource", "initburst"}).Draw(t, "op")
+		op := rapid.SampledFrom([]string{"init", "init", "init", "init", "regtool", "regprompt", "regresource", "initburst", "reinit"}).Draw(t, "op")
 		st := C16Step{Op: op}
 		if op == "init" {
+			st.Version = rapid.SampledFrom(c16Versions).Draw(t, "ver")
+		}
+		if op == "reinit" {
+			st.Burst = []string{rapid.SampledFrom(c16Versions[:2]).Draw(t, "firstver")}
 			st.Version = rapid.SampledFrom(c16Versions).Draw(t, "ver")
 		}
 		if op == "initburst" {
@@ -67,7 +71,7 @@ func ntC16(c C16Case) (bool, []string) {
 	nt := false
 	regBefore := false
 	for _, s := range c.Steps {
-		if s.Op == "initburst" {
+		if s.Op == "initburst" || s.Op == "reinit" {
 			nt = true
 		} else if s.Op != "init" {
 			regBefore = true
@@ -134,6 +138,12 @@ func execC16(c C16Case) *Failure {
 			}
 			continue
 		}
+		if st.Op == "reinit" {
+			if f := c16HandshakeAfter(c, w, name, i, st.Burst[0], st.Version, prompts, resources, ""); f != nil {
+				return f
+			}
+			continue
+		}
 		if f := c16Handshake(c, w, name, i, st.Version, prompts, resources, ""); f != nil {
 			return f
 		}
@@ -143,11 +153,25 @@ func execC16(c C16Case) *Failure {
 
 // c16Handshake performs one initialize on a connection of its own and judges the answer.
 func c16Handshake(c C16Case, w *World, name string, i int, version string, prompts, resources int, note string) *Failure {
+	return c16HandshakeAfter(c, w, name, i, "", version, prompts, resources, note)
+}
+
+// c16HandshakeAfter: when first is not empty, the connection has already completed a handshake asking for that version
+// (initialize, then the initialized notification) and the judged initialize is a second one in the same session.
+func c16HandshakeAfter(c C16Case, w *World, name string, i int, first, version string, prompts, resources int, note string) *Failure {
 	st := C16Step{Version: version}
 	{
 		conn, err := w.Dial()
 		if err != nil {
 			return Failf("C16/connect", "%s: %v", c.Mode, err)
+		}
+		if first != "" {
+			ex0 := conn.Send(InitRequest("0", first), "0", Bound()*4)
+			if w.Mode.Stateful() && ex0.Header != nil {
+				conn.SessionID = ex0.Header.Get("Mcp-Session-Id")
+			}
+			conn.Send([]byte(`{"jsonrpc":"2.0","method":"notifications/initialized"}`), "", Bound())
+			note += fmt.Sprintf(" (second handshake of a session whose first one asked for %.40q)", first)
 		}
 		ex := conn.Send(InitRequest("1", st.Version), "1", Bound()*4)
 		conn.Close()
